@@ -482,6 +482,15 @@ def step (F : Flags) (line : String) : String :=
       | .ok w => (if w.d == d0 then "ok-unchanged" else "ok-created") ++ " remove=" ++ rmS
       | .error _ => "raises-unchanged"
     | _, _, _, _ => "bad-op"
+  | "removeseq" :: _ =>
+    -- close(); remove()  (twice=0)  /  remove(); remove()  (twice=1): is the file gone?
+    match kv ws "mode", (kv ws "hasfn").bind parseBool?, (kv ws "twice").bind parseBool? with
+    | some mode, some hasfn, some twice =>
+      match F.modeFlags mode with
+      | some (wr, o) =>
+        if removeSeqDeletes F.removeSteps (F.removeable wr o hasfn) twice then "deleted" else "kept"
+      | none => "bad-op"
+    | _, _, _ => "bad-op"
   | ["choice", t, x] =>
     match parseBool? t, parseBool? x with
     | some t, some x => (match F.ptTempoChoice t x with
